@@ -242,12 +242,15 @@ def r123(ctx):
         ctx.ob("R12.3", ok, f"{b.name}/start_sec-value", f"start_sec is re-aligned to `{e}`", where=f"{b.file}:{s.line}",
                sample=e)
     # the start_sec write comes before the velocity() reading and verdict
-    # nshift
-    ns = [fv.local_expr(l) for l in range(len(b.local_tys)) if b.local_name(l) == "nshift"]
-    rn = [render(x[2]) if x[0] == "let" else render(x) for x in ns]
-    ok = any(r == "((current_sec - self.start_sec) / self.bucket_interval)" for r in rn) and \
-        any(r.startswith("min(len") or r.startswith("min(nshift") or ("min(" in r and "len" in r) for r in rn)
-    ctx.ob("R12.3", ok, f"{b.name}/nshift", f"nshift is computed as {rn}", where=f"{b.file}:{b.line}", sample=rn)
+    # the shift count (what the buckets are rotated by): min(#buckets, elapsed / bucket_interval), used both for the
+    # truncation and for the number of fresh buckets (binding names do not matter)
+    SH = "min(len(self.buckets), ((current_sec - self.start_sec) / self.bucket_interval))"
+    pv = fnview(ctx, b, policy=False)
+    rs = [render(pv.expr(c.args[1])) for bi, c in b.calls() if c.callee and c.callee.name.endswith("Vec::<T, A>::resize") and len(c.args) > 1]
+    rg = [render(pv.expr(c.args[0])) for bi, c in b.calls() if c.callee and "IntoIterator>::into_iter" in c.callee.name and c.args]
+    ok = any(r == f"(len(self.buckets) - {SH})" for r in rs) and any(r.endswith(f"start: 0, end: {SH}}}") for r in rg)
+    ctx.ob("R12.3", ok, f"{b.name}/nshift", f"buckets are truncated to {rs} and refilled over {rg} (expected a shift by {SH})",
+           where=f"{b.file}:{b.line}", sample=SH)
     # velocity(): loop over all buckets, accumulating
     vb = p.fn(f"{VC}::velocity")
     vv = fnview(ctx, vb, policy=False).named()
